@@ -35,12 +35,62 @@ type flagRule struct {
 }
 
 type openTable struct {
+	// bySSA, when set, is the table obtained by evaluating the function for every combination of the six wire flags
+	// (eval.go): used when the code is not written as the ladder the syntactic extraction knows
+	bySSA map[uint64]openResult
+
 	chain       []flagRule // if / else-if ladder; first match wins
 	chainElse   string     // "reject" when the final else returns
 	singles     []flagRule
 	unknown     []string
 	osVar       types.Object
 	reachesOpen bool
+}
+
+type openResult struct {
+	flags    int64
+	rejected bool
+}
+
+// extractOpenTable: the os flags (*sshFxpOpenPacket).respond opens with, per combination of wire flags.  First by
+// recognising the if-ladder in the syntax (which also names the construct in reports); when the code has another
+// shape — helpers, a lookup table, early returns — by evaluating its SSA for each of the 64 combinations with the
+// attribute flags zero, up to the call of (*Server).openfile.
+func extractOpenTable(p *Program) (*openTable, string) {
+	t, why := extractOpenTableSyntax(p)
+	if t != nil && len(t.unknown) == 0 {
+		return t, why
+	}
+	fn := p.Func("(*sshFxpOpenPacket).respond")
+	if fn == nil {
+		return t, why
+	}
+	res := map[uint64]openResult{}
+	for w := uint64(0); w < 64; w++ {
+		ev := newEvaluator(p)
+		ev.intercept = func(cc *ssa.CallCommon, args []evVal) bool { return calleeName(cc) == "openfile" }
+		pkt := &evObj{typ: derefType(fn.Params[0].Type()), fields: map[string]evVal{
+			"Pflags": evInt(int64(w), types.Typ[types.Uint32]),
+			"Flags":  evInt(0, types.Typ[types.Uint32]),
+		}}
+		st := ev.run(fn, []evVal{{k: evObject, obj: pkt}, {}}, 0)
+		switch st.kind {
+		case "intercept":
+			if len(st.vals) < 3 || st.vals[2].k != evConst {
+				return t, "the flag argument of openfile is not determined by the wire flags (" + fmt.Sprint(st.vals) + ")"
+			}
+			f, _ := constant.Int64Val(constant.ToInt(st.vals[2].c))
+			res[w] = openResult{flags: f}
+		case "return":
+			res[w] = openResult{rejected: true}
+		default:
+			if why == "" && t != nil {
+				why = strings.Join(t.unknown, "; ")
+			}
+			return t, why + " (evaluation for wire flags " + fmt.Sprintf("%#x", w) + " stopped: " + st.why + ")"
+		}
+	}
+	return &openTable{bySSA: res, reachesOpen: true}, ""
 }
 
 func constOf(info *types.Info, e ast.Expr) (int64, bool) {
@@ -98,7 +148,7 @@ func orAssign(info *types.Info, blk *ast.BlockStmt) (types.Object, int64, bool) 
 	return info.ObjectOf(id), k, true
 }
 
-func extractOpenTable(p *Program) (*openTable, string) {
+func extractOpenTableSyntax(p *Program) (*openTable, string) {
 	fd, info := p.FuncDecl(pkgSftp, "sshFxpOpenPacket", "respond")
 	if fd == nil {
 		return nil, "(*sshFxpOpenPacket).respond not found"
@@ -216,6 +266,10 @@ func extractOpenTable(p *Program) (*openTable, string) {
 
 // eval returns the os flags for a wire flag set, or rejected.
 func (t *openTable) eval(w uint64) (osFlags int64, rejected bool) {
+	if t.bySSA != nil {
+		r := t.bySSA[w&0x3f]
+		return r.flags, r.rejected
+	}
 	matched := false
 	for _, r := range t.chain {
 		if w&r.need == r.need {
